@@ -13,19 +13,28 @@ def plan(tier, seed, kf_ids):
         lay.append((rnd.choice(["U", "I"]), rnd.choice([1, 2, 3, 5, 6])))
     for (s, f) in lay:
         t, i, al, tg = c.ty(s, 8, f), c.inner(s, 8), c.alias(s, 8, f), c.tag(s, 8, f)
-        kinds = [("display", "c09_display!(%s, %s, %s, %d);", "{} and {:?}: printed digits are the value correctly rounded (nearest, ties "
-                  "to even) at the digits shown, sign only for negatives, FromStr(output) == x"),
-                 ("prec", "c09_prec!(%s, %s, %s, %d, 10);", "{:.p} for every p <= 10: exactly p fraction digits, correctly rounded"),
-                 ("radix", "c09_radix!(%s, %s, %s, %d);", "{:b} {:o} {:x} {:X}: output parses back (same radix) to exactly x; digit case"),
-                 ("flags", "c09_flags!(%s, %s, %s, %d);", "{:+} {:>w} {:*<w} {:0w} {:#x} {:^+w} (w <= 14): only padding, sign and prefix "
-                  "are added around the flag-free digits")]
+        kinds = [("display", "c09_display!(%s, %s, %s, %d);", "{}: printed digits are the value correctly rounded (nearest, ties to even) at "
+                  "the digits shown, sign only for negatives"),
+                 ("roundtrip", "c09_roundtrip!(%s, %s, %s, %d);", "FromStr({:?} output) == x through the real parser"),
+                 ("prec", "c09_prec!(%s, %s, %s, %d, 8);", "{:.p} for every p <= 8: exactly p fraction digits, correctly rounded")]
+        for wh, nm in enumerate(("bin", "oct", "hex", "HEX")):
+            kinds.append(("radix_" + nm, "c09_radix!(%%s, %%s, %%s, %%d, %d);" % wh, "{:%s}: the printed digits are exactly the value "
+                          "(N * 2^f == |bits| * radix^k), digit case as requested" % "boxX"[wh]))
+        for wh, nm in enumerate(("plus", "right", "fill_left", "zero", "alt_hex", "centre_plus")):
+            kinds.append(("flags_" + nm, "c09_flags!(%%s, %%s, %%s, %%d, %d);" % wh, "format flags '%s' with width <= 12 only add padding, sign "
+                          "and prefix around the flag-free digits" % nm))
         for kind, tmpl, desc in kinds:
-            if q and kind in ("radix", "flags") and (s, f) not in (("U", 4), ("I", 4)):
+            main = (s, f) in (("U", 4), ("I", 4))
+            if q and kind.startswith("radix") and not (main and kind in ("radix_hex", "radix_bin")) and not ((s, f) == ("I", 7) and kind == "radix_oct"):
+                continue
+            if q and kind.startswith("flags") and not (main and kind in ("flags_zero", "flags_centre_plus", "flags_alt_hex")):
+                continue
+            if q and kind == "roundtrip" and (s, f) not in (("U", 4), ("I", 4), ("U", 8), ("I", 7)):
                 continue
             name = "c09_%s_%s" % (kind, tg)
             jobs.append(Job(name, tmpl % (name, t, i, f), "for every value of %s: %s" % (al, desc), timeout=3000, inst=al,
-                            bounds="all 256 values" + ("; p <= 10" if kind == "prec" else "") + ("; widths <= 14, 6 format strings" if kind == "flags" else ""),
-                            kani_args=[]))
+                            bounds="all 256 values" + ("; p <= 8" if kind == "prec" else "") + ("; widths <= 12" if kind.startswith("flags") else ""),
+                            mem_gb=20))
     for k in kf_ids:
         jobs.append(Job("kfw_" + k, "", "witness of known finding %s (concrete operands)" % k, timeout=900, kf=k,
                         inst="witness", bounds="concrete operands"))
@@ -35,10 +44,10 @@ def plan(tier, seed, kf_ids):
         "functions": ["display.rs: fmt_dec, fmt_radix2, FmtHelper::{write_int,write_frac,write_int_dec,write_frac_dec}, "
                       "Buffer::{round_and_trim,encode_digits,pad_and_print}; Display/Debug/Binary/Octal/LowerHex/UpperHex impls",
                       "from_str.rs (round trip through the real parser)"],
-        "bounds": "8-bit types (quick: 6 layouts, thorough: all 18): every value; precision 0..=10; widths 0..=14 with six "
-                  "flag combinations; output buffer 48 bytes; loops unwound 52",
+        "bounds": "8-bit types (quick: 6 layouts, thorough: all 18): every value; precision 0..=8; widths 0..=12 with six "
+                  "flag combinations; output buffer 26 bytes; loops unwound 28",
         "outside": ["16/32/64/128-bit types (the fmt machinery on wider words does not finish in the time available)",
-                    "precision > 10, width > 14, other fill/flag combinations"],
+                    "precision > 8, width > 12, other fill/flag combinations"],
         "assumptions": ["core::str::from_utf8 is stubbed by an ASCII-asserting equivalent (display.rs only passes its own digit buffer)"],
         "stubs": ["core::str::from_utf8 -> c09::ascii_from_utf8"],
     }
